@@ -102,4 +102,20 @@ pub assume_specification<K: Clone, V: Clone> [<PublishedObjectsMapOf<K, V> as Cl
             ('all_sets_reissued', '''r is Ok ==> ophase(final(self).keys) == ophase(old(self).keys) && kos_reissued(cur_set(old(self).keys), cur_set(final(self).keys))
                 && (other_set(old(self).keys) is Some ==> other_set(final(self).keys) is Some && kos_reissued(other_set(old(self).keys)->Some_0, other_set(final(self).keys)->Some_0))''')]),
     ])
+    # CaObjects::re_issue iterates `self.classes.values_mut()` (outside the verifier); one iteration of its loop (the body,
+    # lifted verbatim, R17) decides per class whether to re-issue and keeps the `required` flag STICKY, so that a re-issue of
+    # any class is reported to the caller (which then publishes)
+    U.add('''
+pub open spec fn rco_due(o: ResourceClassObjects, hours: i64) -> bool {
+    kos_due(cur_set(o.keys), hours) || (other_set(o.keys) is Some && kos_due(other_set(o.keys)->Some_0, hours))
+}''')
+    U.free(U.loop_fn(PUB, 'CaObjects', 're_issue', 0, 'vx_re_issue_one_class',
+                     '(resource_class_objects: &mut ResourceClassObjects, required0: bool, force: bool, hours: i64, timing: &IssuanceTimingConfig, signer: &KrillSigner) -> (r: KrillResult<bool>)',
+                     body_only=True, ghost_before='let mut required = required0;\n', tail='Ok(required)',
+                     ensures=[
+                         ('reported_if_any_class_was_reissued', 'r is Ok ==> r->Ok_0 == (required0 || force || rco_due(*old(resource_class_objects), hours))'),
+                         ('due_or_forced_class_is_reissued', '''r is Ok && (force || rco_due(*old(resource_class_objects), hours)) ==>
+                                kos_reissued(cur_set(old(resource_class_objects).keys), cur_set(final(resource_class_objects).keys))'''),
+                         ('other_classes_untouched', 'r is Ok && !(force || rco_due(*old(resource_class_objects), hours)) ==> *final(resource_class_objects) == *old(resource_class_objects)'),
+                     ]))
     return U
